@@ -12,6 +12,7 @@ PROP = {
         "GunYu.Props.C14.sync_mode_exact",
         "GunYu.Props.C14.consistent_of_inv",
         "GunYu.Props.C14.resume_monotone",
+        "GunYu.Props.C14.resume_monotone_rooted",
     ],
     "gens": ["c17"],
     # the flush policy constants (unit threshold, interval) are a tuning parameter: the model is parameterised
@@ -34,10 +35,15 @@ PROP = {
             "write request is a crash point (vfdoubles.Replay of the request prefix, fresh process starts again); chains of up to 3 "
             "further restarts from a random crash point. Result, requests and the start point after every prefix vs Lean "
             "`startFrontier`/`startLatest`. Monitors: selected seq never passes a number missing from the visible journal; a restart "
-            "after any prefix never resumes before the previous start / never fails. "
+            "after any prefix never resumes before the previous start / never fails. Faults on the START path: each write request of the start "
+            "(snapshot save, journal DEL, ZREM, `del frontier` of the purge / the clean-up) fails in turn: a point still returned is the one "
+            "selected without the fault, the next start does not resume before it, and when the numbering restarts (seq 0) a unit K committed "
+            "afterwards without units 1..K-1 must not move the resume point (what a failed purge left is not combined with the new numbering). "
+            "c14k: cluster-typed starts (2-3 slot tags, 16384-tag scan; sync: one latest record per tag): explicit oracle for the selected point, "
+            "every write a crash point and a fault point, order-insensitive monitors only. "
             "c14c: real bisyncFrontierCoordinator under testing/synctest virtual time: 1-14 units reported in a random permutation "
-            "(bounded and unbounded displacement), double / stale reports, flush ticks, gaps of 0..250 ms around the 100 ms flush "
-            "interval: in-memory frontier, pending, advanced and the requests after every event vs Lean `coordOnCommitted`/`coordFlush`; "
+            "(bounded and unbounded displacement), double / stale reports, flush ticks, gaps of 0..250 ms around the flush "
+            "interval, runs longer than the unit-count threshold (the model takes both values from the code): in-memory frontier, pending, advanced and the requests after every event vs Lean `coordOnCommitted`/`coordFlush`; "
             "monitors: frontier = contiguous reported prefix, a journal record is deleted only after a frontier covering it was saved. "
             "c14b: real LoadBisyncLatestStartRecord over 1-4 recovery slots (latest records with equal / different end offsets and mtimes, foreign ids, "
             "empty slots) vs Lean `bestLatest`. "
@@ -49,20 +55,24 @@ PROP = {
             "process StartPoint; resumed run from a random crash point to the end. Monitors independent of any model (unit committed = its data key exists): "
             "resume at a unit boundary with every earlier unit committed; sync: exactly the last committed; bisyncSeq = number of that unit; resume never "
             "moves backwards along the log; a start whose own frontier HSET failed is not undercut by the next; in-memory bisyncSeq/bisyncOffset at every "
-            "request is a committed prefix; second StartPoint of the SAME process (fast path); resumed run leaves no unit uncommitted. "
+            "request is a committed prefix; second StartPoint of the SAME process (fast path), and a third after a full resynchronisation moved the root "
+            "forward (real ResetStartPoint + setCheckpoint): the new root, not the in-memory frontier; resumed run leaves no unit uncommitted. "
             "distinct_nontrivial = distinct (mode, #requests, journal size, index size) with clean-up / (#events, #requests) / advancing rebuilds",
     "trusted": ["target double harness/overlay/pkg/vfdoubles/target.go (HSET/HGETALL/DEL/ZADD/ZREM/ZRANGEBYSCORE/INFO keyspace/SELECT semantics of a standalone Redis)",
                 "a unit's data, journal record and index entry are one MULTI/EXEC (dispatchBisyncUnit queues them on a TxnBatcher; C13/C18 check the batch) - modelled as the single request `commit`"],
     "assumptions": [
         "standalone target: one recovery slot (bisyncRecoverySlots() = [0]), every unit forced to slot 0; cluster mode (16384 slot tags, one index per slot, lanes on several nodes) is covered by the theorems about `rebuild` and the coordinator only",
         "one numbering of units per namespace (World.e, root = e 0) in the invariant theorems; the numbering RESTART (root newer than the frontier after a finished full sync, no frontier, journal gap: start returns the root with seq 0) is in the start-point model (purge of the previous numbering's journal + snapshot, D25/D26) and tied by correspondence; that no unit is skipped across a restart of the numbering is checked on the real send loops (c14l, stale-frontier and two-lane cases), not proved",
-        "fresh process at every start (the in-memory frontier-miss fast path of bisyncFrontierMissFastPath is empty)",
+        "the request-sequence comparison of c14s is a FRESH process per start; the in-memory frontier-miss fast path (second StartPoint of the same RedisOutput) is monitored in c14l: after the loop, and after a full resynchronisation moved the root forward (real ResetStartPoint + setCheckpoint, with and without the in-memory offset a completed SendRdb leaves) the same process must resume at the new root",
         "RDB phase units (bisync_rdb.go, `rdb:` records) are outside the property (incremental replay)",
-        "monotonicity of the resume point along executions WITH traffic is monitored on the real loops (loop-resume-moves-backwards) but proved only for stop/start cycles without traffic (resume_monotone, from every reachable state)",
-        "cluster: one journal / index per slot and duplicates of one sequence number in several slot keys are covered by `rebuild` (any record list) and c14b (best latest over slots); the per-slot index scan of LoadBisyncCommitRecords runs with the 16384 slot tags only in the two-lane c14l cases",
+        "cluster: the model has one journal / index; several slot tags are covered by `rebuild` (any record list), c14b (best latest over slots) and the cluster-typed starts c14k (2-3 slot tags, the 16384-tag scan, purge / clean-up over a Go map of index keys: order-insensitive monitors with an explicit oracle, every write a crash point and a fault point) - no request-sequence comparison there",
         "reviewer's mutant m5 (lane worker ignores validateBisyncExecReplies) is behaviourally equivalent: txnBatcher.Receive already rejects EXECABORT and inner errors (common.CheckTxnRepliesError) before the validation is reached - verified with the queued / inner fault cases under the mutant",
     ],
-    "partial": [],
+    "partial": [
+        "monotonicity of the resume point along executions WITH traffic is not proved: resume_monotone(_rooted) covers stop/start cycles without traffic from every reachable state; with traffic it is monitored on every crash point of the real loops (loop-resume-moves-backwards, loop-recovery-fault-moves-backwards). The model queues recovery requests and coordinator requests in one FIFO that commits may interleave with - the code runs the recovery before the loop starts - so the statement needs a split queue and an ordering invariant on queued save/delete requests",
+        "numbering restart (root newer / no frontier / journal gap: the start returns the root with seq 0 and purges the previous numbering) is in the start-point model and tied by correspondence + monitors (c14s requests, start-fault-renumber-skips-unit, c14l stale-frontier cases); the invariant theorems fix ONE numbering (World.e): no theorem spans two numberings",
+        "sync mode on a cluster (several latest records, root override without purge, rests on LoadBisyncLatestStartRecord ordering by end offset first): sync_mode_exact has one slot; c14b and the c14k sync cases check the real selection against an explicit oracle",
+    ],
 }
 
 MANIFEST = {
@@ -74,6 +84,6 @@ MANIFEST = {
             "Tied to the code by differential correspondence of the real RebuildBisyncFrontier, bisyncFrontierCoordinator (virtual time) and "
             "bisyncStartPoint + clean-up against the target double with every request prefix replayed, plus independent monitors. "
             "Four defects found and fixed (D12: recovery deleted journal records without saving the rebuilt frontier; D21: recovery keys read in the database GetCheckpoint visited last; D25: numbering restart over the stale frontier of the previous numbering skipped units; D26: journal gap made every start fail).",
-    "note": "trusted: Lean kernel (propext, Classical.choice, Quot.sound only), target double, extractor, harness; models hand-written and tied by correspondence; flush constants compared with the source each run",
+    "note": "trusted: Lean kernel (propext, Classical.choice, Quot.sound only), target double, extractor, harness; models hand-written and tied by correspondence; the flush policy is a parameter of the model (FlushPolicy, any value), the run passes the code's values",
     "technique": "Lean 4 proof (fold invariants, transition-system invariant by induction over step lists) + differential correspondence over every request prefix (crash points) under virtual time",
 }
